@@ -110,7 +110,11 @@ func (l *Lexer) NextToken() token.Token {
 		tok := l.bracesToken(token.LBRACES, "{{")
 
 		if l.char == '-' && l.peekChar() == '-' {
-			l.skipComment()
+			if !l.skipComment() {
+				// the comment never ends; the position is that of its "{{"
+				return l.newToken(token.ILLEGAL, "{{--")
+			}
+
 			return l.NextToken()
 		}
 
@@ -186,7 +190,15 @@ func (l *Lexer) embeddedCodeToken() token.Token {
 	case ')':
 		return l.rightParenthesesToken()
 	case '"', '\'':
-		return l.newToken(token.STR, l.readString())
+		quote := l.char
+		str, terminated := l.readString()
+
+		if !terminated {
+			// the position is that of the whole unterminated string
+			return l.newToken(token.ILLEGAL, string(quote))
+		}
+
+		return l.newToken(token.STR, str)
 	case '<':
 		if l.peekChar() == '=' {
 			l.tokenBegins()
@@ -436,7 +448,9 @@ func (l *Lexer) isPotentiallyLong(tok token.TokenType) bool {
 		(tok == token.CONTINUE && l.char == 'I' && l.peekChar() == 'f')
 }
 
-func (l *Lexer) readString() string {
+// readString returns the content of the string literal and reports
+// whether the closing quote was found.
+func (l *Lexer) readString() (string, bool) {
 	quote := l.char
 	result := ""
 
@@ -445,7 +459,7 @@ func (l *Lexer) readString() string {
 
 	if l.char == quote {
 		l.readChar() // skip the last quote
-		return result
+		return result, true
 	}
 
 	pos := l.pos
@@ -462,10 +476,14 @@ func (l *Lexer) readString() string {
 
 	result = l.input[pos:l.pos]
 
+	if l.char == 0 {
+		return result, false
+	}
+
 	l.readChar() // skip the last quote
 
 	// remove slashes before quotes
-	return strings.ReplaceAll(result, "\\"+string(quote), string(quote))
+	return strings.ReplaceAll(result, "\\"+string(quote), string(quote)), true
 }
 
 func (l *Lexer) readNumber() (string, bool) {
@@ -573,14 +591,22 @@ func (l *Lexer) skipWhitespace() {
 	}
 }
 
-func (l *Lexer) skipComment() {
+// skipComment moves past the end of the comment and reports whether
+// the comment was terminated.
+func (l *Lexer) skipComment() bool {
 	for l.char != 0 && !strings.HasPrefix(l.input[l.pos:], "--}}") {
 		l.readChar()
 	}
 
 	l.isHTML = true
 
-	for i := 0; i < len("--}}") && l.char != 0; i++ {
+	if l.char == 0 {
+		return false
+	}
+
+	for i := 0; i < len("--}}"); i++ {
 		l.readChar()
 	}
+
+	return true
 }
